@@ -65,3 +65,22 @@ Definition C09_statement : Prop :=
     | Some (w1, _), Some (w2, _) => w1 = w2
     | _, _ => False
     end.
+
+(* ---------- the code-length generator ---------- *)
+(* LenLimitedCode.Generate (Codes.generate: Moffat–Katajainen lengths + the length limiter) always
+   yields a valid length vector: as long as the alphabet has at most 2^limit used symbols (286 <=
+   2^15, 30 <= 2^15, 19 <= 2^7), whatever the counts.  With it the premise event_ok_b of C01/C10
+   is discharged for every block the compressors can emit. *)
+Definition used_symbols (hist : list N) : nat := length (filter (fun v => negb (v =? 0)) hist).
+
+Definition generate_valid_statement : Prop :=
+  forall (limit : nat) (hist : list N), (1 <= limit <= 15)%nat ->
+    (N.of_nat (used_symbols hist) <= 2 ^ N.of_nat limit) -> (length hist < 65536)%nat ->
+    lens_valid limit hist (generate limit hist).
+
+(* consequently every block of tokens / bytes is encodable *)
+Definition block_always_ok_statement : Prop :=
+  (forall ts, Forall (fun t => match t with TLit b => b < 256
+                                         | TMatch len dist => 3 <= len <= 258 /\ 1 <= dist <= 32768 end) ts ->
+              block_ok ts) /\
+  (forall data, Forall (fun x => x < 256) data -> hblock_ok data).
